@@ -1724,10 +1724,10 @@ func TestVerifC12(t *testing.T) {
 		name string
 		n    int
 	}{
-		{"grammar", r.N(520, 10000) / light()},
-		{"limit", r.N(120, 2400) / light()},
-		{"bytes", r.N(150, 3000) / light()},
-		{"handshake", r.N(50, 1000) / light()},
+		{"grammar", r.N(520, 5200) / light()},
+		{"limit", r.N(120, 1200) / light()},
+		{"bytes", r.N(150, 1500) / light()},
+		{"handshake", r.N(50, 500) / light()},
 	}
 	var cases []caseID
 	for _, fm := range fams {
